@@ -25,7 +25,7 @@ from ..util import Def, make_cfg, pmap, split_defs
 MANIFEST = {
     "technique": "TLA+ spec of the GEL rules (observe/tick/merge/split/promotion, gate) on an exact dyadic grid model-checked with TLC over configuration alphabets and bounded histories; every transition replayed on the real gel functions incl. all permutations of the item list; random long float histories and real orchestrator turns validated by TLC trace checking with IEEE-754 order encoding",
     "text": "Bounded exhaustive model checking of the documented GEL rules with the ten C18 clauses as invariants / action properties (clamp bounds, monotone decay, drop exactly below the floor, one canonically keyed edge per unordered pair, pair cap, top-k above threshold, listing-order insensitivity, maintenance only annotates/attaches, idempotent promotion, closed gate = untouched), bound to the code by transition-coverage replay on observe_retrieval / tick / *_candidates / apply_* with a plain dict state (edges, nodes, meta compared after every operation), by trace validation of seeded random long histories with arbitrary float scores, alphas, clamp ranges and half-lives (weights compared exactly through their bit patterns), and by real run_turn executions with graph.enabled on and off.",
-    "note": "Small scope for the exhaustive part: <= 4 base ids (+ their concept ids), bags of <= 4 items, histories <= 5 operations, weights on a 2^-20 grid with alpha in {1/8, 1/2}, decay factors 2^-n. The increment rule (additive +alpha, proportional +alpha(1-min(|w|,1))) is taken from the module and its unit tests; docs/m11/overview.md summarises a score-weighted variant. Ids containing the key separator are outside the alphabet (two different pairs could share a key). Concept attachment edges are bounded by the attach range [-1,1], not by the update clamp. Orderings of merge candidates that hinge on 'size ASC' (docs) vs 'size DESC' (module) are guarded out.",
+    "note": "Small scope for the exhaustive part: <= 4 base ids (+ their concept ids), bags of <= 4 items, histories <= 5 operations, weights on a 2^-20 grid with alpha in {1/8, 1/2}, decay factors 2^-n. The increment rule (additive +alpha, proportional +alpha(1-min(|w|,1))) is taken from the module and its unit tests; docs/m11/overview.md summarises a score-weighted variant. Ids containing the key separator are outside the alphabet (two different pairs could share a key). Concept attachment edges are bounded by the attach range [-1,1], not by the update clamp. Orderings of merge candidates that hinge on 'size ASC' (docs) vs 'size DESC' (module) are guarded out. Clamp ranges that exclude 0, alpha=inf and floor=NaN (formerly accepted, each broke WithinClamp) are rejected by the repaired validator; the check asserts the rejection and re-runs the reproducer if one is accepted again.",
 }
 
 D = 1 << 20
@@ -402,10 +402,9 @@ def _diff(a, b) -> str:
 # ------------------------------------------------------------------------------------------------
 # families of TLC runs
 # ------------------------------------------------------------------------------------------------
-INVS = ["WithinClamp", "WithinClampHull", "OneEdgePerUnorderedPair", "PromotionIdempotent"]
+INVS = ["WithinClamp", "OneEdgePerUnorderedPair", "PromotionIdempotent"]
 PROPS = ["TickNonIncreasing", "TickDropsExactlyBelowFloor", "ObserveAtMostPairCap", "ObserveOnlyTopKAboveThreshold",
          "ObserveOrderInsensitive", "MaintenanceOnlyAnnotatesOrAttaches", "GateOffUntouched"]
-ALL_CAUSES = ["tick-below-clamp-min", "tick-above-clamp-max"]
 
 
 def tla_set(xs) -> str:
@@ -439,9 +438,9 @@ def seq_def(xs) -> Def:
     return Def("<<" + ", ".join(tla_int(x) for x in xs) + ">>")
 
 
-CLAMPS_0 = [(-D, D), (-D // 2, D // 2)]          # contain 0
-CLAMPS_X = [(D // 4, 3 * D // 4)]                # validator-accepted, exclude 0
-# a range below 0 is rejected by the validator (floor >= 0 must be <= clamp_max) unless floor is NaN: see c18_traces.EXTREMES
+# validator-accepted clamp ranges (clamp_min <= 0 <= clamp_max), incl. the two one-sided ones
+CLAMPS_0 = [(-D, D), (-D // 2, D // 2)]
+CLAMPS_1 = [(0, 3 * D // 4), (-3 * D // 4, 0)]
 
 
 def base_consts(**over) -> Dict[str, Any]:
@@ -450,7 +449,7 @@ def base_consts(**over) -> Dict[str, Any]:
          "Maints": Def(tla_set([M1])), "InitGraphs": Def(tla_set(["<<>>"])), "InitGates": [True], "ItemIds": seq_def([1, 2, 6]),
          "Scores": seq_def([D]), "MaxItems": 3, "Dts": [0, 1],
          "Ops": ["observe", "tick", "merge", "split", "promote", "gate"], "MaxDepth": 3,
-         "Tolerate": Def("{}"), "CheckPerms": False}
+         "CheckPerms": False}
     c.update(over)
     return c
 
@@ -476,23 +475,7 @@ def _nv(nv, key, cond) -> None:
     nv[key] = nv.get(key, 0) + (1 if cond else 0)
 
 
-def run_family(run, name: str, consts: Dict[str, Any], excl0: bool, workers=8, timeout=900) -> None:
-    open_causes = sorted({e["signature"].get("cause") for e in run.known if e.get("status") == "open"
-                          and e["signature"].get("clause") == "WithinClamp"} & set(ALL_CAUSES))
-    if excl0:
-        # hypothesis run: does the *model* keep coact weights inside a clamp range that excludes 0?
-        strict = dict(consts, Tolerate=Def(tla_set(f'"{c}"' for c in open_causes)), Ops=["observe", "tick"],
-                      MaxDepth=min(3, consts["MaxDepth"]), CheckPerms=False)
-        res = tlc_retry(run, "Gel", make_cfg(strict, ["WithinClamp"], [], emit=False, spec="SpecD"),
-                      name=name + "_strict", workers=workers, timeout_s=timeout, defs=split_defs(strict))
-        if res.violation is not None and res.violation["name"] == "WithinClamp":
-            run.notes.append(f"{name}: the model of the documented rules refutes WithinClamp for a clamp range excluding 0 "
-                             f"(hypothesis; judged on the real code by the replay)")
-            run.extra.setdefault("model_counterexamples", []).append(
-                {"family": name, "invariant": "WithinClamp", "trace_head": res.violation["trace"][:1500]})
-        elif res.violation is not None:
-            run.model_must_hold(res)
-        consts = dict(consts, Tolerate=Def(tla_set(f'"{c}"' for c in ALL_CAUSES)))
+def run_family(run, name: str, consts: Dict[str, Any], workers=8, timeout=900) -> None:
     cfg = make_cfg(consts, INVS, PROPS, spec="SpecD")
     res = tlc_retry(run, "Gel", cfg, name=name, workers=workers, timeout_s=timeout, defs=split_defs(consts), coverage=False)
     run.model_must_hold(res)
@@ -550,6 +533,48 @@ def run_family(run, name: str, consts: Dict[str, Any], excl0: bool, workers=8, t
         run.sample({"family": name, "constants": jc, "transition": pick[len(pick) // 2][1]}, cap=8)
 
 
+# settings the validator used to accept and under which the real code left the clamp range (fixed at the
+# validator: "clamp range must contain 0", "non-finite numbers rejected"); each must now be REJECTED — if one
+# is accepted again the reproducer is run on the real code and a violation reported under its old signature
+FORMER = [
+    ("tick-below-clamp-min", {"update": {"mode": "additive", "alpha": 0.5, "clamp_min": 0.4, "clamp_max": 0.8},
+                              "decay": {"half_life_turns": 1, "floor": 0.0}}),
+    ("nan-weight", {"update": {"mode": "proportional", "alpha": float("inf"), "clamp_min": -1.0, "clamp_max": 1.0}}),
+    ("tick-above-clamp-max", {"update": {"mode": "additive", "alpha": 0.07, "clamp_min": -0.8, "clamp_max": -0.4},
+                              "decay": {"half_life_turns": 1, "floor": float("nan")}}),
+]
+
+
+def formerly_accepted(run) -> None:
+    from configs.validate import validate_config
+    from clematis.engine import gel
+    for cause, sub in FORMER:
+        raw = dict(copy.deepcopy(sub), enabled=True, coactivation_threshold=0.2)
+        run.traces += 1
+        run.case(("former", cause))
+        try:
+            g = validate_config({"graph": copy.deepcopy(raw)})["graph"]
+        except Exception:
+            run.ok("Validator.rejects." + cause)
+            continue
+        ctx, st = {"graph": g}, {}
+        seen: List[float] = []
+        for step in ("observe", "tick", "observe", "observe", "tick", "tick"):
+            if step == "observe":
+                gel.observe_retrieval(ctx, st, [("a", 1.0), ("b", 1.0)], turn=1)
+            else:
+                gel.tick(ctx, st, decay_dt=1, turn=2)
+            seen += [r["weight"] for r in st["graph"]["edges"].values()]
+        lo, hi = float(g["update"]["clamp_min"]), float(g["update"]["clamp_max"])
+        bad = [w for w in seen if not (lo <= w <= hi)]
+        if bad:
+            run.fail("WithinClamp", {"clause": "WithinClamp", "cause": cause}, {"graph": repr(raw), "weights": repr(seen)},
+                     f"validate_config accepts {raw} again and observe,tick,observe,observe,tick,tick gives weights {seen} outside [{lo}, {hi}]",
+                     replay={"family": "former", "cause": cause})
+        else:
+            run.notes.append(f"validate_config accepts {raw} again (no clamp violation reproduced)")
+
+
 def check(run) -> None:
     q = run.quick
     run.rule = ("every transition (config, gate, pre-graph, operation, post-graph) of the bounded-depth exhaustive Gel state graphs "
@@ -562,29 +587,30 @@ def check(run) -> None:
                       Thresholds=[0, D // 2], TopKs=[1, 2, 3], PairCaps=[0, 2, 64] if q else [0, 1, 2, 64], ItemIds=seq_def([1, 2, 7, 8]),
                       Scores=seq_def([0, D // 2, D, NAN_V] if q else [NINF, 0, D // 2, D, PINF, NAN_V]),
                       MaxItems=3, Ops=["observe"], MaxDepth=1, CheckPerms=True)
-    run_family(run, "select3", sel, False)
+    run_family(run, "select3", sel)
     sel4 = dict(sel, Scores=seq_def([D // 2, D] if q else [D // 2, D, NAN_V]), ItemIds=seq_def([1, 2, 7] if q else [1, 2, 7, 8]),
                 MaxItems=4, TopKs=[2, 3] if q else [2, 3, 4], PairCaps=[2, 64] if q else [1, 2, 5, 64], CheckPerms=not q)
-    run_family(run, "select4", sel4, False)
+    run_family(run, "select4", sel4)
     # ---- B: dynamics (mode, alpha, clamp, floor) x histories --------------------------------------
     dyn = base_consts(MaxDepth=2 if q else 3, InitGraphs=Def(tla_set(["<<>>", tri3])))
-    run_family(run, "dyn0", dyn, False)
+    run_family(run, "dyn0", dyn)
     if q:       # one more operation of history on a narrower configuration alphabet
-        run_family(run, "dyn3", dict(dyn, AlphaDens=[2], Clamps=clamp_def([(-D // 2, D // 2)]), Floors=[D // 8], MaxDepth=3), False)
-    dynx = dict(dyn, Clamps=clamp_def(CLAMPS_X), Floors=[0, D // 8] if not q else [0],
-                Ops=["observe", "tick", "promote"] if q else dyn["Ops"])
-    run_family(run, "dynx", dynx, True)
+        run_family(run, "dyn3", dict(dyn, AlphaDens=[2], Clamps=clamp_def([(-D // 2, D // 2)]), Floors=[D // 8], MaxDepth=3))
+    # one-sided ranges [0, 3/4] and [-3/4, 0]: saturation at 0, floor must be <= clamp_max
+    dyn1 = dict(dyn, Clamps=clamp_def(CLAMPS_1), AlphaDens=[2] if q else [8, 2])
+    run_family(run, "dyn1", dyn1)
     # ---- C: maintenance on 4 base ids (split needs two parts of >= 2 nodes) ------------------------
-    mt = base_consts(NN=4, Modes=["additive"], AlphaDens=[2], Clamps=clamp_def([(-D, D)] if q else CLAMPS_0 + CLAMPS_X),
+    mt = base_consts(NN=4, Modes=["additive"], AlphaDens=[2], Clamps=clamp_def([(-D, D)] if q else CLAMPS_0 + CLAMPS_1[:1]),
                      Floors=[D // 8], PairCaps=[64], Maints=Def(tla_set([M1] if q else [M1, M2])),
                      InitGraphs=Def(tla_set(["<<>>", chain4])), ItemIds=seq_def([2, 7] if q else [1, 2, 7]), MaxItems=2,
                      Dts=[1], MaxDepth=2 if q else 3)
-    run_family(run, "maint4", mt, not q)
+    run_family(run, "maint4", mt)
     if not q:
-        deep = base_consts(Modes=["proportional"], AlphaDens=[2], Clamps=clamp_def(CLAMPS_0 + CLAMPS_X), Floors=[D // 8],
+        deep = base_consts(Modes=["proportional"], AlphaDens=[2], Clamps=clamp_def(CLAMPS_0 + CLAMPS_1[:1]), Floors=[D // 8],
                            PairCaps=[1, 64], ItemIds=seq_def([1, 2]), MaxItems=2, Dts=[1, 2],
                            Ops=["observe", "tick", "promote"], MaxDepth=5)
-        run_family(run, "deep5", deep, True)
+        run_family(run, "deep5", deep)
+    formerly_accepted(run)
     run.exhaustive = True
     run.constants = {"D": D, "half_lives": HALF_LIVES, "names_4_2": names(4, 2)}
     from . import c18_traces, c18_turn
@@ -596,6 +622,7 @@ def check(run) -> None:
         "a transition whose exact result leaves the grid is not generated (double arithmetic stays exact on every replayed case)",
         "WithinClamp binds co-activation edges to [clamp_min, clamp_max]; concept attachment edges to the attach range [-1, 1]",
         "configurations are passed through the real validate_config; a rejected configuration is outside the quantifier (guarded out)",
+        "config alphabets contain validator-accepted settings only (clamp_min <= 0 <= clamp_max, finite scalars); the three settings that used to be accepted and broke WithinClamp are asserted to be rejected",
     ]
 
 
@@ -604,6 +631,12 @@ def replay(rep) -> int:
     fam = r["family"]
     if fam == "transition":
         fails = [(c, m) for c, _s, m in replay_transition((r["constants"], r["transition"]))]
+    elif fam == "former":
+        from types import SimpleNamespace
+        box = SimpleNamespace(traces=0, notes=[], case=lambda k: None, ok=lambda c: None, out=[])
+        box.fail = lambda clause, sig, wit, msg, replay=None: box.out.append((clause, msg))
+        formerly_accepted(box)
+        fails = [f for f in box.out]
     elif fam.startswith("trace"):
         from . import c18_traces
         fails = c18_traces.replay(r)
